@@ -151,17 +151,22 @@ class M(Model):
         b_ = a.copy()
         b_[k] = 0
         _, new, contrib, attempts = self._step(s, b_)
-        if not np.array_equal(eaten2, eaten | new):
-            out.append(("food eaten differs from the same step with the offending agent idle",
-                        f"eaten {eaten2.astype(int).tolist()} expected {(eaten | new).astype(int).tolist()}"))
+        # one direction only: food that disappears must be explained by the *other* agents' loads (food the
+        # others should have eaten but did not is the loading rule of C09, not an effect of the ignored action)
+        extra = eaten2 & ~(eaten | new)
+        if extra.any():
+            out.append(("food was eaten that the other agents' actions do not explain",
+                        f"eaten {eaten2.astype(int).tolist()} explained {(eaten | new).astype(int).tolist()}"))
         rew = np.asarray(ts2.reward, np.float64).reshape(-1)
         if rew.shape[0] == self.A and (self.pen == 0 or not attempts.any()):
             if abs(rew[k]) > 1e-6:
                 out.append(("ignored illegal action was rewarded", f"agent {k}: reward {rew[k]}"))
-        exp_last = bool(eaten2.all()) or int(s2.step_count) >= self.T
-        if (int(ts2.step_type) == LAST) != exp_last:
-            out.append(("step type after an ignored illegal action is not the one of the resulting state",
-                        f"step_type={int(ts2.step_type)} expected last={exp_last}"))
+        # "the episode continues": LAST is only acceptable when all food is gone or the time limit is reached
+        # (the converse - MID although the rules say LAST - is C09/C11's business)
+        exp_last = bool(eaten2.all()) or int(s.step_count) + 1 >= self.T
+        if int(ts2.step_type) == LAST and not exp_last:
+            out.append(("ignored illegal action ended the episode",
+                        f"step_type={int(ts2.step_type)} although food is left and the time limit is not reached"))
         return out
 
     # ------------------------------------------------------------------------------------ C07
@@ -181,10 +186,11 @@ class M(Model):
         for k, c in enumerate(cells):
             if c in live:
                 out.append(("agent stands on an uneaten food", f"agent {k} at {list(c)} food {live[c]}"))
-        if not np.array_equal(np.asarray(s.agents.id).reshape(-1), np.arange(self.A)):
-            out.append(("agent ids are not 0..n-1", ""))
-        if not np.array_equal(np.asarray(s.food_items.id).reshape(-1), np.arange(self.F)):
-            out.append(("food ids are not 0..n-1", ""))
+        # (the docs only say that an id identifies an entity: uniqueness, not the numbering, is asserted)
+        if len(set(np.asarray(s.agents.id).reshape(-1).tolist())) != self.A:
+            out.append(("agent ids are not unique", ""))
+        if len(set(np.asarray(s.food_items.id).reshape(-1).tolist())) != self.F:
+            out.append(("food ids are not unique", ""))
         if prev is not None:
             papos, palev, pfpos, pflev, peaten = self._tab(prev)
             if not np.array_equal(pfpos, fpos) or not np.array_equal(pflev, flev):
@@ -193,11 +199,7 @@ class M(Model):
                 out.append(("agent level changed during the episode", f"{palev.tolist()} -> {alev.tolist()}"))
             if (peaten & ~eaten).any():
                 out.append(("an eaten food came back", f"{peaten.astype(int).tolist()} -> {eaten.astype(int).tolist()}"))
-            far = np.abs(apos - papos).sum(axis=1) > 1
-            if far.any():
-                out.append(("agent moved more than one cell", f"{papos.tolist()} -> {apos.tolist()}"))
-            if int(s.step_count) != int(prev.step_count) + 1:
-                out.append(("step_count not incremented", f"{int(prev.step_count)} -> {int(s.step_count)}"))
+            # (step_count and "one cell per step" are transition rules - C09 -, not physical consistency)
         return out
 
     # ------------------------------------------------------------------------------------ C08
@@ -246,9 +248,12 @@ class M(Model):
         a_ = np.asarray(a).reshape(-1).astype(np.int64)
         npos, new, contrib, attempts = self._step(s, a_)
         eaten2 = eaten | new
-        st = {"agents.position": npos, "agents.level": alev, "agents.loading": a_ == LOAD,
-              "agents.id": np.arange(self.A), "food_items.position": fpos, "food_items.level": flev,
-              "food_items.eaten": eaten2, "food_items.id": np.arange(self.F), "step_count": int(s.step_count) + 1}
+        # `agents.loading` is a helper flag the docs do not define (e.g. for a load with no food nearby): not
+        # predicted; ids are only documented as identifiers: predicted unchanged, whatever their numbering
+        st = {"agents.position": npos, "agents.level": alev,
+              "agents.id": np.asarray(s.agents.id), "food_items.position": fpos, "food_items.level": flev,
+              "food_items.eaten": eaten2, "food_items.id": np.asarray(s.food_items.id),
+              "step_count": int(s.step_count) + 1}
         out = {"state": st, "last": bool(eaten2.all()) or int(s.step_count) + 1 >= self.T}
         if self.pen == 0 or not attempts.any():
             out["reward"] = self._rewards(s, new, contrib)
@@ -348,20 +353,16 @@ class M(Model):
                     out.append(("two food items are adjacent", f"{fpos[f].tolist()} {fpos[g].tolist()}"))
         if alev.min() < 1 or alev.max() > self.max_level:
             out.append(("agent level outside 1..max_agent_level", str(alev.tolist())))
-        cap = int(np.sort(alev)[:3].sum())  # 'in the worst case, 3 agents are needed to eat a food item'
-        if flev.min() < 1 or flev.max() > cap:
-            out.append(("food level outside 1..(sum of the three lowest agent levels)", f"food {flev.tolist()} agents {alev.tolist()}"))
-        if self.coop and not (flev == cap).all():
-            out.append(("force_coop: food level is not the sum of the three lowest agent levels", f"food {flev.tolist()} agents {alev.tolist()}"))
+        # How food levels are derived from the agents' levels ("sum of the three lowest", force_coop) is only a
+        # source comment, not an advertised invariant: only "a level is a positive number" is asserted.
+        if flev.min() < 1:
+            out.append(("food level below 1", f"food {flev.tolist()}"))
         if eaten.any():
             out.append(("food eaten at reset", ""))
-        if np.asarray(s0.agents.loading).any():
-            out.append(("agent loading at reset", ""))
-        if int(s0.step_count) != 0:
-            out.append(("initial step_count != 0", str(int(s0.step_count))))
-        if not np.array_equal(np.asarray(s0.agents.id).reshape(-1), np.arange(self.A)) or \
-                not np.array_equal(np.asarray(s0.food_items.id).reshape(-1), np.arange(self.F)):
-            out.append(("entity ids are not 0..n-1", ""))
+        # (agents.loading, step_count and the numbering of ids are not instance invariants: not asserted)
+        if len(set(np.asarray(s0.agents.id).reshape(-1).tolist())) != self.A or \
+                len(set(np.asarray(s0.food_items.id).reshape(-1).tolist())) != self.F:
+            out.append(("entity ids are not unique", ""))
         return out
 
     # ------------------------------------------------------------------------------------ C12
